@@ -2,8 +2,10 @@ package checks
 
 import (
 	"fmt"
+	"strings"
 
 	"verif/corpus"
+	"verif/symgo"
 )
 
 // C10: emitted tables are faithful to the automata.
@@ -126,6 +128,16 @@ func C10(c *Ctx) int {
 				byName[r.H.Name] = it
 				c.HandleGenCex(o, it, r)
 			}
+			// whole-language product for the default mode of selected items
+			prodItems := map[string]bool{"L-kw1": true, "L-pfx": true, "L-ovl": true, "L-tri": true, "L-ops": true, "L-ng1": true, "L-ng7": true}
+			for _, it := range items2 {
+				if !(it.ExitOK && it.Files) {
+					continue
+				}
+				if c.Thorough() || prodItems[it.Name] {
+					c.lexProduct(o, gprog2, it, 400, byName)
+				}
+			}
 		}
 	}
 	c.ValidateSamples(o, byName, 4)
@@ -133,4 +145,59 @@ func C10(c *Ctx) int {
 		"table layout taken from the documentation comments in emit_parser.go / emit_lexer.go"}
 	o.Outside = []string{"whole-specification product of table and reference automaton over all strings (covered only up to the input bounds of C01/C02/C07)", "tables larger than the stated shapes"}
 	return c.Finish(o)
+}
+
+// lexProduct closes the set of (table state, reference position set) pairs of
+// the default mode of one item; every pair is one exploration deciding the
+// step for all runes at once.
+func (c *Ctx) lexProduct(o *Outcome, prog *symgo.Program, it *GenItem, maxPairs int, byName map[string]*GenItem) {
+	type job struct{ access []int }
+	seen := map[string]bool{"": true}
+	work := []job{{nil}}
+	pairs := 0
+	for len(work) > 0 && pairs < maxPairs {
+		j := work[0]
+		work = work[1:]
+		pairs++
+		params := map[string]int{"alen": len(j.access)}
+		for i, a := range j.access {
+			params[fmt.Sprintf("a%d", i)] = a
+		}
+		h := Harness{Name: fmt.Sprintf("gen.Product[%s,pair=%d]", it.Name, pairs), Func: "H_Product", Params: params, Quiet: true, CollectAll: true,
+			Bounds: fmt.Sprintf("pair reached by the access string %v; every rune -1..U+10FFFF", j.access)}
+		r, err := c.RunGenHarness(prog, it, h)
+		if err != nil {
+			o.Broken = append(o.Broken, err.Error())
+			return
+		}
+		o.Add(r)
+		byName[r.H.Name] = it
+		c.HandleGenCex(o, it, r)
+		if len(r.Rep.Cex) > 0 {
+			return
+		}
+		for _, pl := range r.Rep.PathLogs {
+			for _, line := range pl.Observed {
+				if !strings.HasPrefix(line, "collect:") {
+					continue
+				}
+				key := line[len("collect:"):]
+				if seen[key] {
+					continue
+				}
+				seen[key] = true
+				rv := int(int32(uint32(pl.Inputs["r"])))
+				acc := append(append([]int{}, j.access...), rv)
+				work = append(work, job{acc})
+			}
+		}
+	}
+	if o.Extra == nil {
+		o.Extra = map[string]any{}
+	}
+	closed := len(work) == 0
+	o.Extra["product_"+it.Name] = map[string]any{"pairs": pairs, "closed": closed}
+	if !closed {
+		o.Inconclusive = append(o.Inconclusive, fmt.Sprintf("gen.Product[%s]: more than %d pairs, set not closed", it.Name, maxPairs))
+	}
 }
